@@ -674,11 +674,35 @@ def named_paths(m, home, maxlen, listing_names):
     return out
 
 
-def below_root(p):
-    """p is ROOT itself or lexically below it"""
-    if not (p == ROOT or p.startswith(ROOT + b"/")):
+def below_root(p, root=None):
+    """p is the root itself or lexically below it"""
+    root = ROOT if root is None else root
+    if not (p == root or p.startswith(root + b"/")):
         return False
-    return b".." not in p[len(ROOT):].split(b"/")
+    return b".." not in p[len(root):].split(b"/")
+
+
+KNOWN_DIRS = [SBb + d for d in (b"", b"/root", b"/root/rd", b"/dir1", b"/dir1/sub", b"/dir2", b"/root2")]
+
+
+def py_args(opts, treg, ten, root):
+    """what the command line means (rfbProcessArguments with the extension's options), from the
+    documentation of the two options: -ftproot <existing dir>, -disablefiletransfer; other words
+    mean nothing; without the registered extension nothing means anything"""
+    i = 0
+    while i < len(opts):
+        o = opts[i]
+        if treg and o == "-ftproot" and i + 1 < len(opts):
+            pth = opts[i + 1].encode()
+            q = pth[:-1] if pth.endswith(b"/") else pth
+            if pth and len(pth) <= 4095 and (pth in KNOWN_DIRS or q in KNOWN_DIRS):
+                root = q
+                i += 2
+                continue
+        elif treg and o == "-disablefiletransfer":
+            ten = 0
+        i += 1
+    return ten, root
 
 
 def fs_paths(line):
@@ -704,6 +728,7 @@ def oracle(ops, impl):
     permit, cb, qidx = 0, None, 0
     home = SBb
     treg, ten = 0, 1
+    root = ROOT
     conns = {}          # id -> dict(tight, view, upnames:set, reaped)
     fdowner = {}        # serial -> conn id
     tree = None
@@ -733,10 +758,21 @@ def oracle(ops, impl):
             continue
         if t[0] == "tight":
             treg, ten = int(t[1].split("=")[1]), int(t[2].split("=")[1])
+            if treg:
+                root = ROOT
+            continue
+        if t[0] == "args":
+            ten, root = py_args(t[1:], treg, ten, root)
             continue
         if t[0] == "conn":
             if blk and blk[0].startswith("= "):
                 cid = int(t[1][1:])
+                offered = blk[0].split("sec=")[1].split(",") if "sec=" in blk[0] else []
+                if not treg and "16" in offered:
+                    return ("security type 16 (TightVNC file transfer) is offered although the extension is not "
+                            "registered (rfbUnregisterTightVNCFileTransferExtension was called)")
+                if "tight" in t[2:] and not treg and " open " in blk[0] + " ":
+                    return "a client was admitted with security type 16 although the TightVNC extension is not registered"
                 conns[cid] = {"tight": ("tight" in t[2:]) and treg == 1 and "open" in blk[0], "view": "viewonly" in t[2:],
                               "up": set(), "reaped": False}
             continue
@@ -827,7 +863,7 @@ def oracle(ops, impl):
                         continue
                     if x["ty"] in (130, 131, 132, 136):
                         c = cstr(x["pl"])
-                        p = ROOT + c
+                        p = root + c
                         names.add(p)
                         if x["ty"] == 130:
                             for nm in lnames:
@@ -845,11 +881,11 @@ def oracle(ops, impl):
                     for p in paths:
                         if p == b"":
                             continue
-                        if not below_root(p):
-                            return "TightVNC extension touched %r outside its root %r (%r)" % (p, ROOT, l)
+                        if not below_root(p, root):
+                            return "TightVNC extension touched %r outside its root %r (%r)" % (p, root, l)
                         if p not in names and p not in cn["up"]:
                             return "TightVNC extension touched %r, not a path named by the client in this request" % p
-                if cs and canary is not None and cs[-1] != canary and all(x.get("ty") != 7 for x in msgs):
+                if cs and canary is not None and root == ROOT and cs[-1] != canary and all(x.get("ty") != 7 for x in msgs):
                     return ("a TightVNC message changed a file outside the extension's root %r (existence, size, "
                             "content or modification time of the canary files)" % ROOT)
                 if gate and len(msgs) == 1 and msgs[0].get("ty") in (131, 132) and not msgs[0].get("trunc") \
@@ -947,7 +983,9 @@ def fixed_scripts(maxlen):
     (c) TightVNC names with "." components before / around "..", and controls;
     (d) TightVNC name-size fields 0, 4095, 4096, 32767, 32768, 65535 (sign of `short`);
     (e) every rejection reason of every TightVNC request kind x every follow-up message that acts on
-        the per-client record, with a canary file outside the root."""
+        the per-client record, with a canary file outside the root;
+    (f) every order of (un)registering the TightVNC extension and an application security handler;
+    (g) the command-line options of the extension x unknown options x passwd home usable or not."""
     out = []
     # (a)
     for k in range(0, 13):
@@ -1030,6 +1068,48 @@ def fixed_scripts(maxlen):
             ops += [send(i, kf(rv)), send(i, fv), send(i, t_done()), "gone c%d" % i]
         ops += ["reap", "fds"]
         out.append(("fixed:tight-refused-followup-%d" % (base // per), ops))
+    # (f) "counts as enabled only when registered": every order of registering / unregistering the
+    #     TightVNC extension and an application-owned security handler (all 64 toggle sequences of
+    #     length 6, probed after every step): type 16 offered / accepted only while registered
+    import itertools as _it
+    seqs = list(_it.product("TA", repeat=6))
+    for base in range(0, len(seqs), 8):
+        ops = ["cfg permit=0 cb=none"]
+        k = 0
+        for sq in seqs[base:base + 8]:
+            ops += ["tight reg=0 en=1", "app reg=0"]
+            tr = ar = 0
+            for ch in sq:
+                if ch == "T":
+                    tr ^= 1
+                    ops.append("tight reg=%d en=1" % tr)
+                else:
+                    ar ^= 1
+                    ops.append("app reg=%d" % ar)
+                ops += ["conn c%d tight" % k, send(k, t_list(b"/")), send(k, t_mkdir(b"/reg%d" % k)), "gone c%d" % k]
+                k += 1
+        ops += ["reap", "fds"]
+        out.append(("fixed:registry-orders-%d" % (base // 8), ops))
+    # (g) "switched on" through the command line: -disablefiletransfer / -ftproot followed by options
+    #     nobody knows, with a usable, a missing and no passwd home directory (InitFileTransfer)
+    arglists = [["-disablefiletransfer"], ["-disablefiletransfer", "-foo"], ["-disablefiletransfer", "-ftproot", SB + "/dir1"],
+                ["-ftproot", SB + "/dir1", "-foo", "-bar"], ["-ftproot", SB + "/dir1", "-disablefiletransfer", "-x"],
+                ["-foo", "-disablefiletransfer"], ["-ftproot", SB + "/nodir", "-disablefiletransfer"],
+                ["-ftproot", SB + "/dir1/", "-y"], ["-foo"], ["-disablefiletransfer", "-a", "-b", "-c"]]
+    for pw in (0, 1, 2):
+        ops = ["cfg permit=0 cb=none", "pwhome %d" % pw]
+        k = 0
+        for reg in (1, 0):
+            for al in arglists:
+                ops += ["tight reg=1 en=1"] if reg else ["tight reg=0 en=1"]
+                ops.append("args " + " ".join(al))
+                if not reg:
+                    ops.append("tight reg=1 en=1")      # options given before the extension existed mean nothing
+                ops += ["conn c%d tight" % k, send(k, t_list(b"/")), send(k, t_mkdir(SBb + b"/argsmk%d" % k)),
+                        send(k, t_mkdir(b"/argsub%d" % k)), send(k, t_dl(b"/f1")), send(k, t_ul(SBb + b"/argsup%d" % k)), "gone c%d" % k]
+                k += 1
+        ops += ["reap", "fds"]
+        out.append(("fixed:cmdline-pwhome%d" % pw, ops))
     return [(n, "\n".join(o) + "\n") for n, o in out]
 
 
